@@ -577,7 +577,8 @@ macro_rules! int_strategy {
         pub fn $name() -> impl Strategy<Value = $t> {
             prop_oneof![
                 3 => any::<$t>(),
-                3 => prop::sample::select(vec![<$t>::MIN, <$t>::MAX, 0 as $t, 1 as $t, <$t>::MAX - 1, <$t>::MIN + 1, (<$t>::MAX / 2) as $t, 10 as $t, 100 as $t]),
+                2 => prop::sample::select(vec![<$t>::MIN, <$t>::MAX]),
+                2 => prop::sample::select(vec![0 as $t, 1 as $t, <$t>::MAX - 1, <$t>::MIN + 1, (<$t>::MAX / 2) as $t, 10 as $t, 100 as $t]),
                 1 => (0u32..<$t>::BITS).prop_map(|b| (1 as $t).wrapping_shl(b)),
                 1 => (0u32..<$t>::BITS).prop_map(|b| (1 as $t).wrapping_shl(b).wrapping_sub(1)),
                 1 => (-3i8..=3).prop_map(|d| (d as i128) as $t),
@@ -676,27 +677,35 @@ pub fn key_leaf() -> impl Strategy<Value = Spec> {
     ]
 }
 
+fn containers(inner: BoxedStrategy<Spec>, seq_weight: u32) -> prop::strategy::Union<BoxedStrategy<Spec>> {
+    let kids = |max: usize| prop::collection::vec(inner.clone(), 0..=max);
+    let mut options: Vec<(u32, BoxedStrategy<Spec>)> = vec![
+        (2, inner.clone().prop_map(|v| Spec::SomeV(Box::new(v))).boxed()),
+        (2, prop::collection::vec(inner.clone(), 1..=4).prop_map(Spec::Tuple).boxed()),
+        (3, prop::collection::vec((prop_oneof![3 => any_text(), 2 => "[a-c]"], inner.clone()), 0..=4).prop_map(Spec::Map).boxed()),
+        (1, prop::collection::vec((key_leaf(), inner.clone()), 0..=3).prop_map(Spec::MapK).boxed()),
+        (4, (0u8..4, 0u8..8, kids(4)).prop_map(|(n, f, v)| Spec::Struct(n, f, v)).boxed()),
+        (1, (0u8..4, inner.clone()).prop_map(|(n, v)| Spec::NewtypeStruct(n, Box::new(v))).boxed()),
+        (1, (0u8..4, prop::collection::vec(inner.clone(), 1..=3)).prop_map(|(n, v)| Spec::TupleStruct(n, v)).boxed()),
+        (2, (0u8..3, 0u8..6, inner.clone()).prop_map(|(e, v, x)| Spec::NewtypeVariant(e, v, Box::new(x))).boxed()),
+        (2, (0u8..3, 0u8..6, prop::collection::vec(inner.clone(), 1..=3)).prop_map(|(e, v, x)| Spec::TupleVariant(e, v, x)).boxed()),
+        (2, (0u8..3, 0u8..6, 0u8..8, kids(3)).prop_map(|(e, v, f, x)| Spec::StructVariant(e, v, f, x)).boxed()),
+    ];
+    if seq_weight > 0 {
+        options.push((seq_weight, kids(4).prop_map(Spec::Seq).boxed()));
+    }
+    prop::strategy::Union::new_weighted(options)
+}
+
 /// Recursive structured values. `seq_weight` tunes how often `Seq` is produced (0 = never).
+/// Three out of four roots are forced to be a container (proptest's recursion alone is leaf-heavy).
 pub fn tree(seq_weight: u32) -> impl Strategy<Value = Spec> {
-    leaf().prop_recursive(4, 24, 4, move |inner| {
-        let kids = |max: usize| prop::collection::vec(inner.clone(), 0..=max);
-        let mut options: Vec<(u32, BoxedStrategy<Spec>)> = vec![
-            (2, inner.clone().prop_map(|v| Spec::SomeV(Box::new(v))).boxed()),
-            (2, prop::collection::vec(inner.clone(), 1..=4).prop_map(Spec::Tuple).boxed()),
-            (3, prop::collection::vec((prop_oneof![3 => any_text(), 2 => "[a-c]"], inner.clone()), 0..=4).prop_map(Spec::Map).boxed()),
-            (1, prop::collection::vec((key_leaf(), inner.clone()), 0..=3).prop_map(Spec::MapK).boxed()),
-            (4, (0u8..4, 0u8..8, kids(4)).prop_map(|(n, f, v)| Spec::Struct(n, f, v)).boxed()),
-            (1, (0u8..4, inner.clone()).prop_map(|(n, v)| Spec::NewtypeStruct(n, Box::new(v))).boxed()),
-            (1, (0u8..4, prop::collection::vec(inner.clone(), 1..=3)).prop_map(|(n, v)| Spec::TupleStruct(n, v)).boxed()),
-            (2, (0u8..3, 0u8..6, inner.clone()).prop_map(|(e, v, x)| Spec::NewtypeVariant(e, v, Box::new(x))).boxed()),
-            (2, (0u8..3, 0u8..6, prop::collection::vec(inner.clone(), 1..=3)).prop_map(|(e, v, x)| Spec::TupleVariant(e, v, x)).boxed()),
-            (2, (0u8..3, 0u8..6, 0u8..8, kids(3)).prop_map(|(e, v, f, x)| Spec::StructVariant(e, v, f, x)).boxed()),
-        ];
-        if seq_weight > 0 {
-            options.push((seq_weight, kids(4).prop_map(Spec::Seq).boxed()));
-        }
-        prop::strategy::Union::new_weighted(options)
-    })
+    let rec = move || leaf().prop_recursive(4, 32, 4, move |inner| containers(inner, seq_weight)).boxed();
+    prop_oneof![
+        1 => rec(),
+        2 => containers(rec(), seq_weight),
+        1 => containers(containers(rec(), seq_weight).boxed(), seq_weight),
+    ]
 }
 
 /// Trees whose only sequence (if any) is the root: clear of the nested-sequence shape.
